@@ -204,6 +204,22 @@ Theorem compress_sound : forall (n : name) (origin : option name) (canon : bool)
 Proof. exact NameCompress.compress_sound_W. Qed.
 Print Assumptions compress_sound.
 
+(* the two "consumed" statements of the design, as corollaries *)
+Theorem consumed_plain : forall (n : name) (pre post : list Z),
+  Valid n -> is_absolute n = true ->
+  exists m, from_wire (pre ++ wire_labels false n ++ post) (length pre) = Ok (m, length (wire_labels false n)).
+Proof. exact NameCompress.consumed_plain. Qed.
+Print Assumptions consumed_plain.
+
+Theorem consumed_compressed : forall (n : name) (origin : option name) (canon : bool)
+    (file : list Z) (t : ctable) (file' : list Z) (t' : ctable) (labels : name),
+  Forall (fun c => 0 <= c) file -> (forall k v, In (k, v) t -> Valid k) ->
+  TableSoundW file t -> Valid n -> full_name n origin = Ok labels ->
+  to_wire_compress n origin canon file t = Ok (file', t') ->
+  exists m, from_wire file' (length file) = Ok (m, (length file' - length file)%nat).
+Proof. exact NameCompress.consumed_compressed. Qed.
+Print Assumptions consumed_compressed.
+
 (* byte-identical when no key of the table is a case variant of a suffix being written
    (and the name is not canonicalized) *)
 Theorem compress_exact : forall (n : name) (origin : option name)
